@@ -134,9 +134,44 @@ def family_drawing(tier, no_repeats=False):
     return out
 
 
+def family_alt_group(tier, no_repeats=False):
+    """several objects of an alternatively mapped hierarchy (parent mapped alternatively, child normally) converted in
+    one state: each child's inherited part is rebuilt through a temporary parent DAO"""
+    out = []
+    names = ("a0", "a1", "a2")
+    kid_lists = [p for n in range(0, 4) for p in itertools.permutations(names, n)]
+    if not no_repeats:
+        kid_lists += [("a0", "a0"), ("a1", "a0", "a1")]
+    for kids in kid_lists:
+        for first in (None, "a0", "a2"):
+            if tier == "quick" and len(kids) == 3 and first == "a2":
+                continue
+            nodes = [item("i0", False, 0), item("i1", True, 3)]
+            nodes.append(("a0", "OAltChild", (("base", 1.5), ("items", ("list", ("i0",))), ("level", 10.5), ("favourite", ("ref", "i0")))))
+            nodes.append(("a1", "OAltChild", (("base", 2.5), ("items", ("list", ("i1", "i0"))), ("level", 20.5), ("favourite", ("ref", None)))))
+            nodes.append(("a2", "OAltParent", (("base", 3.5), ("items", ("list", ())))))
+            nodes.append(("g0", "OAltGroup", (("kids", ("list", kids)), ("first", ("ref", first)))))
+            out.append(tuple(nodes))
+    return out
+
+
+def family_teams(tier, no_repeats=False):
+    """many-to-many in both directions between an alternatively mapped class and a normally mapped one: collections
+    that hold an alternatively mapped object which is still being converted, at every position"""
+    out = []
+    orders = lambda a, b: [(), (a,), (b,), (a, b), (b, a)]
+    for tm0, tm1 in itertools.product(orders("m0", "m1"), repeat=2):
+        for mt0, mt1 in itertools.product(orders("t0", "t1"), repeat=2):
+            out.append((("t0", "OTeam", (("name", "red"), ("members", ("list", tm0)))),
+                        ("t1", "OTeam", (("name", "blue"), ("members", ("list", tm1)))),
+                        ("m0", "OMember", (("name", "alice"), ("teams", ("list", mt0)))),
+                        ("m1", "OMember", (("name", "bob"), ("teams", ("list", mt1))))))
+    return out
+
+
 def all_specs(tier, no_repeats=False):
     return (family_items_holders(tier, no_repeats) + family_vec_carrier(tier, no_repeats)
-            + family_alt_parent(tier, no_repeats) + family_drawing(tier, no_repeats))
+            + family_alt_parent(tier, no_repeats) + family_drawing(tier, no_repeats) + family_teams(tier, no_repeats) + family_alt_group(tier, no_repeats))
 
 
 def show(spec):
